@@ -194,6 +194,8 @@ func runC07(c *core.Ctx) {
 	runR712(c, "R7.12")
 	c.Rule("R7.9", "a request header has one owner: a decoder handed the header its caller releases never puts it back into the pool itself (a header released twice is given to two connections, whose requests then overwrite each other's length fields)", 2)
 	runR147(c, "R7.9", poolWrappers(c), "protocol")
+	c.Rule("R7.14", "the byte slices a parser puts into a request (Key, Data, Keys[i]) are never views into the connection's read buffer (Peek / ReadSlice / ReadLine results)", 8)
+	checkParsedBytesArePrivate(c, "R7.14")
 	c.Share(map[string]string{"R14.3": "R7.13"}, runC14) // the scratch buffer a header is decoded from belongs to one decoder: released twice it is shared with another connection's decoder
 }
 
@@ -1242,5 +1244,58 @@ func runR712(c *core.Ctx, rule string) {
 	}
 	if n == 0 {
 		c.Undecided(rule, "server.ListenAndServe#protocol-selection", c.P.Pos(las.Pos()), "no protocol selection found in the per-connection goroutine")
+	}
+}
+
+// checkParsedBytesArePrivate (R7.14): the byte slices a parser puts into a request (Key, Data, the elements of Keys)
+// are the request's own memory. A slice that is a view into the connection's read buffer (the result of Peek,
+// ReadSlice or ReadLine of a bufio.Reader) is overwritten by the next read from the socket - while the same request is
+// still being decoded (the keys of a quiet-get batch that arrives in several reads all become the last key), or while
+// the orchestrator is still using it: what was decoded then depends on how the stream was split into reads.
+func checkParsedBytesArePrivate(c *core.Ctx, rule string) {
+	pv := &ssax.Prov{MaxDepth: 4, AppendMemory: true, Inline: func(f *ssa.Function) bool {
+		return f.Pkg != nil && strings.Contains(f.Pkg.Pkg.Path(), "/protocol/")
+	}}
+	n := 0
+	for _, rel := range []string{"protocol/binprot", "protocol/textprot"} {
+		for _, fn := range pkgFuncs(c, rel) {
+			counts := map[string]int{}
+			ssax.Instrs(fn, func(ins ssa.Instruction) {
+				st, ok := ins.(*ssa.Store)
+				if !ok {
+					return
+				}
+				fa, ok := st.Addr.(*ssa.FieldAddr)
+				if !ok {
+					return
+				}
+				owner := ssax.ShortType(fa.X.Type())
+				if !strings.Contains(owner, "common.") || !strings.HasSuffix(owner, "Request") {
+					return
+				}
+				f, _ := ssax.FieldName(fa)
+				var path []string
+				switch types.TypeString(st.Val.Type(), nil) {
+				case "[]byte":
+				case "[][]byte":
+					path = []string{"[]"}
+				default:
+					return
+				}
+				n++
+				key := ordinalKey(counts, core.FuncName(fn)+"#"+strings.TrimPrefix(owner, "*")+"."+f)
+				var views []string
+				for _, s := range pv.Sources(st.Val, path...) {
+					if (s.Kind == "call" || s.Kind == "outparam") && s.Call != nil && isReaderView(s.Call) {
+						views = append(views, s.String())
+					}
+				}
+				c.Check(len(views) == 0, rule, key, c.P.Pos(st.Pos()), "the bytes are not a view into the connection's read buffer",
+					fmt.Sprintf("field %s of the request may be a view into the connection's read buffer (%s): it is overwritten by the next read from the socket, so the decoded request depends on how the stream was split into reads", f, strings.Join(uniq(views), ", ")))
+			})
+		}
+	}
+	if n == 0 {
+		c.Undecided(rule, "parsers#request-bytes", "-", "no request with byte fields is built in the parsers")
 	}
 }
